@@ -1,1 +1,246 @@
-/- C08 property theorems (stub: not built yet) -/
+import ThriftVerif.Gen.Rpc
+import ThriftVerif.Gen.RpcLemmas
+import ThriftVerif.Gen.SchemaCheck
+import ThriftVerif.Generated.C08
+/-
+  C08 — generated client and processor carry a call end to end.
+  Property theorems over `Gen.Rpc` (model of templates/{client,processor,service}.go + scope.go buildSynthesized,
+  with apache TStandardClient / TBinaryProtocol message framing as documented parameters), built on
+  `Gen.Std` (generated Read/Write) and `Core.Wire`.
+
+  Vocabulary: `SchemaOK P` = what the semantic checker guarantees about the schema (C02); `MethodOK P m` = the
+  service table refers to a `<fn>_args` struct without optional fields and a `<fn>_result` struct made of
+  `success` (id 0, unless void) followed by the throws, all optional, no defaults — checked by the model driver
+  on every service line the harness emits (`methodOkB`, sound by `methodOkB_sound`); `CallOK` = the arguments
+  are Go values of the argument types that `Write` accepts, and whatever the handler answers is a well-typed,
+  writable result (or an error text that fits a string). `WireEq v v'` = equal, or encoding to the same wire
+  value (a nil slice inside a struct comes back as an empty one, etc.: the normal form the oracle uses too).
+  No bound on the number of services, methods, arguments, nesting, sizes or calls.
+-/
+namespace Props.C08
+open Wire Gen Gen.Std Gen.Rpc
+
+/-- regenerated obligation: the constants the templates emit (application-exception kinds with their message
+prefixes, message types of the replies, the synthesized struct names and the `success` field) are the ones the
+model uses. Extracted from templates/processor.go, templates/client.go and scope.go on every run. -/
+theorem template_constants_sound :
+    Generated.C08.appExceptions =
+      [("INTERNAL_ERROR", "\"Internal error processing {{.Name}}: \"+err2.Error()"), ("PROTOCOL_ERROR", "err.Error()"),
+       ("UNKNOWN_METHOD", "\"Unknown function \"+name")] ∧
+    Generated.C08.messageBegins =
+      [("\"{{.Name}}\"", "EXCEPTION"), ("\"{{.Name}}\"", "REPLY"), ("name", "EXCEPTION")] ∧
+    Generated.C08.clientCalls = [("\"{{.Name}}\"", "&_args", "&_result"), ("\"{{.Name}}\"", "&_args", "nil")] ∧
+    Generated.C08.synthesized = [("args", "v.Name + \"_args\""), ("result", "v.Name + \"_result\""),
+      ("success.id", "0"), ("success.name", "\"success\""), ("success.req", "parser.FieldType_Optional")] := by
+  decide
+
+/-- **msg_roundtrip**: the strict-write message header is read back exactly (any trailing bytes untouched),
+whether or not the reader insists on the version word. -/
+theorem msg_roundtrip (strictRead : Bool) (name : Bytes) (ty seq : Nat) (r : Bytes)
+    (hn : name.length < maxSize) (ht : ty < 256) (hs : seq < 256 ^ 4) :
+    decMsg strictRead (encMsg name ty seq ++ r) = some (name, ty, seq, r) :=
+  decMsg_encMsg strictRead name ty seq r hn ht hs
+
+/-- **extends_dispatch**: the processor of a service handles every method of every ancestor — the map built by
+`New<Svc>Processor` (base processor first, own functions added to the same map) sends each name reachable
+through `extends*` to that method's processor function. Structural induction on the chain; `NoShadow` = no
+name is declared twice along the chain. -/
+theorem extends_dispatch (svc : Service) (hn : svc.NoShadow) (m : Method) (hm : m ∈ svc.methods) :
+    mapGet m.name svc.procMap = some m :=
+  dispatch_mem svc hn m hm
+
+/-- one more level of `extends` keeps every inherited method dispatchable (the induction step, stated on its own) -/
+theorem extends_dispatch_step (ms : List Method) (base : Service) (hn : (Service.ext ms base).NoShadow)
+    (m : Method) (hm : m ∈ base.methods) :
+    mapGet m.name (Service.ext ms base).procMap = some m :=
+  dispatch_mem _ hn m (by simp [Service.methods, hm])
+
+/-- **call_roundtrip** (with handler_sees_args and the request half of wire_shape): for every accepted schema,
+every service, every method reachable through `extends*`, every argument list that `Write` accepts and every
+handler: one call on a fresh connection
+ * sends `⟨name as in the IDL, CALL, seqid+1⟩ ++ args struct` (`ws` = the encoded argument fields),
+ * makes the processor invoke the handler exactly once, with arguments `a'` that encode to the same fields `ws`,
+ * delivers to the caller `outcomeOf (h m a')`: the returned value / the declared exception (same index, same
+   wire value) / TApplicationException INTERNAL_ERROR with the handler's error text / nothing for oneway
+   (no reply bytes at all),
+ * and leaves the connection clean: both queues empty, sequence counter advanced by one. -/
+theorem call_roundtrip (P : Prog) (hP : SchemaOK P) (svc : Service) (hn : svc.NoShadow) (m : Method)
+    (hmem : m ∈ svc.methods) (hm : MethodOK P m) (h : Handler) (a : List GoVal) (seq : Nat)
+    (ad : StructDef) (hsd : P.structs[m.args]? = some ad)
+    (hwt : WTFields P.structs ad.fields a) (ws : List (Nat × WVal)) (hw : toWFields P ad.fields a = .ok ws)
+    (hans : ∀ a', m.oneway = false → AnswerOK P m (h m a')) :
+    ∃ a', toWFields (noVal P) ad.fields a' = .ok ws ∧
+      ∃ obs, call P svc m h a (Conn.fresh seq) = (Conn.fresh (nextSeq seq), obs) ∧
+        obs.req = some (encMsg m.name tCALL (nextSeq seq) ++ (encFields ws ++ [0])) ∧
+        (∃ po, obs.proc = some po ∧ po.log = [(m.name, a')] ∧ po.rest = some [] ∧ (m.oneway = true → po.reply = [])) ∧
+        OutcomeRel (noVal P) (succTyD P m) (throwDefs P m) (outcomeOf m (successTy P m) (h m a')) obs.outcome :=
+  call_main P hP svc m h a seq hm (dispatch_mem svc hn m hmem) ad hsd hwt ws hw hans
+
+/-- **handler_sees_args**: the handler log of the call holds exactly one entry, for this method, and the
+arguments in it encode (set-uniqueness validation aside) to the very fields the client sent. -/
+theorem handler_sees_args (P : Prog) (hP : SchemaOK P) (svc : Service) (hn : svc.NoShadow) (m : Method)
+    (hmem : m ∈ svc.methods) (hm : MethodOK P m) (h : Handler) (a : List GoVal) (seq : Nat)
+    (ad : StructDef) (hsd : P.structs[m.args]? = some ad)
+    (hwt : WTFields P.structs ad.fields a) (ws : List (Nat × WVal)) (hw : toWFields P ad.fields a = .ok ws)
+    (hans : ∀ a', m.oneway = false → AnswerOK P m (h m a')) :
+    ∃ a' po, (call P svc m h a (Conn.fresh seq)).2.proc = some po ∧ po.log = [(m.name, a')] ∧
+      toWFields (noVal P) ad.fields a' = .ok ws ∧ toWFields (noVal P) ad.fields a = .ok ws := by
+  obtain ⟨a', h1, obs, hc, _, ⟨po, hp, hl, _, _⟩, _⟩ :=
+    call_main P hP svc m h a seq hm (dispatch_mem svc hn m hmem) ad hsd hwt ws hw hans
+  exact ⟨a', po, by rw [hc]; exact hp, hl, h1, toWFields_noVal P a ad.fields ws hw⟩
+
+/-- **unknown_method**: a message whose name is not in the (inherited) method table — whatever its message type —
+never reaches the handler and is answered by `⟨same name, EXCEPTION, same seqid⟩ ++ TApplicationException
+UNKNOWN_METHOD`; a well-formed args struct behind it is consumed. The generated client's reader decodes that
+answer as application exception type 1. -/
+theorem unknown_method (P : Prog) (svc : Service) (h : Handler) (name : Bytes) (ty seq : Nat) (args : WVal) (r : Bytes)
+    (hnot : name ∉ svc.methods.map (·.name))
+    (hn : name.length < maxSize) (ht : ty < 256) (hs : seq < 256 ^ 4)
+    (hst : args.ttype = .struct) (hwf : WF args) (hd : args.depth ≤ 64) :
+    let po := process P svc h (encMsg name ty seq ++ (encW args ++ r))
+    po.log = [] ∧ po.rest = some r ∧ po.success = false ∧
+    po.reply = encMsg name tEXCEPTION seq ++ encW (appExcW (asc "Unknown function " ++ name) UNKNOWN_METHOD) ∧
+    (decMsg false po.reply).map (fun x => (x.1, x.2.1, x.2.2.1)) = some (name, tEXCEPTION, seq) ∧
+    ((asc "Unknown function " ++ name).length < maxSize →
+      readAppExc (encW (appExcW (asc "Unknown function " ++ name) UNKNOWN_METHOD)) =
+        some ((asc "Unknown function " ++ name, 1), [])) := by
+  have hg := dispatch_unknown svc name hnot
+  have hsk : skipW 12 (encW args ++ r) = some r := by
+    have := skipW_encW args r hwf hd
+    rw [hst] at this
+    simpa [TType.code] using this
+  simp only [process, decMsg_encMsg false name ty seq _ hn ht hs, hg, excReply]
+  refine ⟨by trivial, hsk, by trivial, by trivial, ?_, ?_⟩
+  · rw [decMsg_encMsg false name tEXCEPTION seq _ hn (by decide) hs]; rfl
+  · intro hl
+    have := readAppExc_enc (asc "Unknown function " ++ name) UNKNOWN_METHOD [] (by simp [asc]) hl (by decide)
+    simpa [UNKNOWN_METHOD] using this
+
+/-- **wire_shape**, request: the args struct carries one field per argument, all of them, in IDL order, each
+under its IDL id (as a 16-bit pattern). -/
+theorem wire_shape_request (P : Prog) (m : Method) (hm : MethodOK P m) (seq : Nat) (a : List GoVal)
+    (ad : StructDef) (hsd : P.structs[m.args]? = some ad) (ws : List (Nat × WVal))
+    (hw : toWFields P ad.fields a = .ok ws) :
+    clientSend P seq m a = (nextSeq seq, .ok (encMsg m.name tCALL (nextSeq seq) ++ encW (.struct ws))) ∧
+    ws.map (·.1) = ad.fields.map (fun f => pat 16 f.id) := by
+  obtain ⟨sd, hs, hk, hno⟩ := hm.args
+  rw [hsd] at hs; cases hs
+  refine ⟨?_, toWFields_nonopt_ids P ad.fields a ws hno hw⟩
+  simp [clientSend, write_struct P m.args ad a ws hsd hk hw, bind, pure, encW]
+
+/-- **wire_shape**, reply: `⟨name, REPLY, seqid⟩ ++ result struct`, in which a returned value travels as field
+`success` with id 0 and the i-th declared exception under its own IDL id, nothing else; any other handler error
+is `⟨name, EXCEPTION, seqid⟩ ++ TApplicationException INTERNAL_ERROR`; a oneway function writes nothing. -/
+theorem wire_shape_reply (P : Prog) (m : Method) (hm : MethodOK P m) (h : Handler) (seq : Nat) (bs rest : Bytes)
+    (a' : List GoVal) (hread : readZero P.structs m.args bs = some (a', rest)) :
+    (m.oneway = true → (processFn P m h seq bs).reply = []) ∧
+    (m.oneway = false → ∀ msg, resultOf m (h m a') = .error msg →
+      (processFn P m h seq bs).reply =
+        encMsg m.name tEXCEPTION seq ++
+          encW (appExcW (asc "Internal error processing " ++ m.name ++ asc ": " ++ msg) INTERNAL_ERROR)) ∧
+    (m.oneway = false → ∀ rd, P.structs[m.result]? = some rd → ∀ robj wr, resultOf m (h m a') = .ok robj →
+      toWFields P rd.fields robj = .ok wr →
+      (processFn P m h seq bs).reply = encMsg m.name tREPLY seq ++ encW (.struct wr) ∧
+      (∀ v, h m a' = .ok v → m.void = false → v ≠ .nil →
+        ∃ sf w, rd.fields.head? = some sf ∧ toW P sf.ty v = .ok w ∧ wr = [(0, w)]) ∧
+      (∀ i v, h m a' = .exc i v → i < m.nthrows → v ≠ .nil →
+        ∃ f w, ((throwDefs P m).drop i).head? = some f ∧ toW P f.ty v = .ok w ∧ wr = [(pat 16 f.id, w)])) := by
+  obtain ⟨h1, h2, h3⟩ := processFn_reply P m h seq bs rest a' hread
+  refine ⟨h1, fun ho msg hr => by rw [h2 ho msg hr]; rfl, ?_⟩
+  intro ho rd hrd robj wr hres hwr
+  obtain ⟨rd', hrd', hk, hl, hao, hid⟩ := hm.result ho
+  rw [hrd] at hrd'; cases hrd'
+  refine ⟨h3 ho robj rd wr hres hrd hk hwr, ?_, ?_⟩
+  · intro v hv hvoid hne
+    simp only [hv, resultOf, hvoid, Bool.false_eq_true, if_false, Except.ok.injEq] at hres
+    subst hres
+    simp only [hvoid, Bool.false_eq_true, if_false] at hl
+    match hf : rd.fields with
+    | [] => simp [hf] at hl; omega
+    | sf :: tf =>
+      have hsf := hao sf (by simp [hf])
+      have hid0 : sf.id = 0 := by simpa [hf] using hid hvoid
+      have htl : tf.length = m.nthrows := by simp [hf] at hl; omega
+      rw [hf] at hwr
+      simp only [List.singleton_append, toWFields, hsf.1, decide_true, Bool.true_and,
+        isSet_of_ne_nil sf v hsf.2 hne, Bool.not_true, Bool.false_eq_true, if_false, Res.bind_eq_ok] at hwr
+      obtain ⟨w, hw1, ws', hw2, hw3⟩ := hwr
+      rw [← htl, toWFields_nils P tf (fun g hg => hao g (by simp [hf, hg]))] at hw2
+      cases hw2; cases hw3
+      exact ⟨sf, w, rfl, hw1, by simp [hid0, pat]⟩
+  · intro i v hv hi hne
+    simp only [hv, resultOf, hi, if_true, Except.ok.injEq] at hres
+    subst hres
+    have htd : throwDefs P m = rd.fields.drop (if m.void then 0 else 1) := by simp [throwDefs, Prog.struct?, hrd]
+    cases hvoid : m.void
+    · simp only [hvoid, Bool.false_eq_true, if_false] at hl htd hwr
+      match hf : rd.fields with
+      | [] => simp [hf] at hl; omega
+      | sf :: tf =>
+        have hsf := hao sf (by simp [hf])
+        have htl : tf.length = m.nthrows := by simp [hf] at hl; omega
+        rw [hf] at hwr
+        simp only [List.singleton_append, toWFields, hsf.1, decide_true, Bool.true_and, isSet_nodflt sf _ hsf.2, goEq,
+          Bool.not_true, Bool.not_false, if_true] at hwr
+        rw [← htl] at hwr hi
+        obtain ⟨f, w, e1, e2, e3⟩ := toWFields_single P tf i v wr (fun g hg => hao g (by simp [hf, hg])) hi hne hwr
+        exact ⟨f, w, by rw [htd, hf]; simpa using e1, e2, e3⟩
+    · simp only [hvoid, if_true, Nat.zero_add, List.drop_zero, List.nil_append] at hl htd hwr
+      rw [← hl] at hwr hi
+      obtain ⟨f, w, e1, e2, e3⟩ := toWFields_single P rd.fields i v wr hao hi hne hwr
+      exact ⟨f, w, by rw [htd]; exact e1, e2, e3⟩
+
+/-- **call_sequence**: for any history of calls on one connection (each with its own — arbitrary, possibly
+stateful — handler), by induction over the history: the connection is clean after every call, the sequence id
+advances by one per call, and the observation of the n-th call (request bytes, handler log, reply bytes, what the
+caller gets) is exactly what that call yields ALONE on a fresh connection carrying that sequence id: it depends
+on the n-th call only. -/
+theorem call_sequence (P : Prog) (hP : SchemaOK P) (svc : Service) (specs : List CallSpec) (seq : Nat)
+    (h : ∀ s ∈ specs, CallOK P svc s) :
+    runCalls P svc specs (Conn.fresh seq) = (Conn.fresh (seqAfter specs.length seq), obsAlone P svc seq specs) :=
+  runCalls_fresh P hP svc specs seq h
+
+/-! non-vacuity: a concrete schema, service chain and call satisfy every hypothesis, and the model computes the
+expected bytes -/
+
+/-- structs: 0 = exception X {1: string msg}; 1 = add_args {1: i32 x, 2: i32 y}; 2 = add_result {0: optional i32
+success, 1: optional X e}; 3 = ping_args {}; 4 = fire_args {1: i32 x} -/
+def exProg : Prog := { structs := [
+  { kind := 2, fields := [{ id := 1, req := .default, ty := .str, dflt := none }] },
+  { kind := 0, fields := [{ id := 1, req := .default, ty := .i32, dflt := none }, { id := 2, req := .default, ty := .i32, dflt := none }] },
+  { kind := 0, fields := [{ id := 0, req := .optional, ty := .i32, dflt := none }, { id := 1, req := .optional, ty := .struct 0, dflt := none }] },
+  { kind := 0, fields := [] },
+  { kind := 0, fields := [{ id := 1, req := .default, ty := .i32, dflt := none }] }] }
+
+def exAdd : Method := { name := asc "add", args := 1, result := 2, oneway := false, void := false, nthrows := 1 }
+def exFire : Method := { name := asc "fire", args := 4, result := 0, oneway := true, void := true, nthrows := 0 }
+def exSvc : Service := .ext [exAdd] (.root [exFire])
+
+example : SchemaOK exProg := schemaOkB_sound exProg (by decide)
+example : MethodOK exProg exAdd := methodOkB_sound exProg exAdd (by decide)
+example : MethodOK exProg exFire := methodOkB_sound exProg exFire (by decide)
+example : exSvc.NoShadow := by unfold Service.NoShadow; decide
+example : exFire ∈ exSvc.methods := by decide
+
+/-- the hypotheses of call_roundtrip / call_sequence (`CallOK`) are satisfiable: a concrete call -/
+example : CallOK exProg exSvc ⟨exAdd, fun _ _ => .ok (.int 5), [.int 2, .int 3]⟩ := by
+  refine ⟨methodOkB_sound exProg exAdd (by decide), by rfl, ?_, ?_⟩
+  · refine ⟨_, rfl, ?_, _, rfl⟩
+    simp [WTFields, WT]
+  · intro a' _ rd hrd
+    have : rd = { kind := 0, fields := [{ id := 0, req := .optional, ty := .i32, dflt := none },
+        { id := 1, req := .optional, ty := .struct 0, dflt := none }] } := by
+      simp [exAdd, exProg] at hrd; exact hrd.symm
+    subst this
+    refine ⟨?_, _, rfl⟩
+    simp [WTFields, WT, exAdd, nils, isSet, goEq]
+
+example : (call exProg exSvc exAdd (fun _ a => match a with | [.int x, .int y] => .ok (.int (x + y)) | _ => .err [])
+    [.int 2, .int 3] (Conn.fresh 0)).2.outcome = .ok (.int 5) := by rfl
+
+example : (call exProg exSvc exAdd (fun _ _ => .exc 0 (.strct [.bytes [111]])) [.int 2, .int 3] (Conn.fresh 0)).2.outcome
+    = .exc 0 (.strct [.bytes [111]]) := by rfl
+
+example : (call exProg exSvc exFire (fun _ _ => .err []) [.int 2] (Conn.fresh 7)).2.proc.map (·.reply) = some [] := by decide
+
+end Props.C08
